@@ -315,6 +315,7 @@ func Eval(s Stmt, pts []Pt) []Series {
 	// sets without rows then simply produce no series.
 	if s.SOffset > 0 || s.SLimit > 0 {
 		all := map[string]bool{}
+		orderKey := map[string]string{}
 		for _, p := range pts {
 			if p.M != s.M {
 				continue
@@ -328,17 +329,34 @@ func Eval(s Stmt, pts []Pt) []Series {
 			if !match {
 				continue
 			}
-			var idParts []string
+			var idParts, names, vals []string
 			for _, d := range dims {
 				idParts = append(idParts, tagOf(p, d))
+				if v := tagOf(p, d); v != "" {
+					names = append(names, d)
+					vals = append(vals, v)
+				}
+			}
+			// the server orders tag sets by the key "k1|k2|v1|v2" built from the
+			// dimensions the series actually carries (tsdb.MakeTagsKey): tag sets
+			// lacking a dimension sort before those that have it
+			key := ""
+			if len(names) > 0 {
+				key = strings.Join(names, "|") + "|" + strings.Join(vals, "|")
 			}
 			all[strings.Join(idParts, "\x00")] = true
+			orderKey[strings.Join(idParts, "\x00")] = key
 		}
 		allIDs := make([]string, 0, len(all))
 		for id := range all {
 			allIDs = append(allIDs, id)
 		}
-		sort.Strings(allIDs)
+		sort.Slice(allIDs, func(i, j int) bool {
+			if orderKey[allIDs[i]] != orderKey[allIDs[j]] {
+				return orderKey[allIDs[i]] < orderKey[allIDs[j]]
+			}
+			return allIDs[i] < allIDs[j]
+		})
 		if s.SOffset >= len(allIDs) {
 			allIDs = nil
 		} else {
